@@ -233,6 +233,8 @@ class disassembler(object):
         logger.debug("building specs tree for modules %s", [m.__name__ for m in specmodules])
         # self.indent = 0
         self.specs = [self.setup(m.ISPECS) for m in specmodules]
+        # the tree layout depends on the fetch endianness (see setup): remember which one it was built for
+        self.__modules, self.__e = specmodules, self.endian()
         # del self.indent
         # some arch like x86 require a stateful decoding due to optional prefixes,
         # so we keep an __i instruction for decoding until a non prefix ispec is used.
@@ -287,6 +289,9 @@ class disassembler(object):
 
     def __call__(self, bytestring, **kargs):
         e = self.endian(**kargs)
+        if e != self.__e:
+            self.__e = e
+            self.specs = [self.setup(m.ISPECS) for m in self.__modules]
         adjust = lambda x: x.ival
         bs = bytestring[0:self.maxlen]
         if e == -1:
